@@ -87,6 +87,7 @@ def judge(part: Part, tag: str, case: Dict[str, Any], pdu: bytes, res: Any, exc:
 
 
 def check_program(L: harness.Loaded, prog: Dict[str, Any], part: Part) -> None:
+    from odxtools.exceptions import DecodeError
     msg = L.msg[prog["pid"]]
     tag = tagkey(prog)
     if "pdus" in prog:  # replay of a recorded byte string
@@ -131,6 +132,43 @@ def check_program(L: harness.Loaded, prog: Dict[str, Any], part: Part) -> None:
         res, exc = guarded_decode(msg.decode, pdu)
         part.add("nontrivial", digest((tag, type(exc).__name__ if exc else "ok", len(pdu))))
         judge(part, tag, {"program": prog_case(prog), "values": None, "pdu": pdu.hex()}, pdu, res, exc, ref_short, "PDU")
+    # the same description through the diagnostic layer it belongs to (prefix tree, response matching)
+    if "pdus" in prog:
+        layer_inputs = inputs
+    else:
+        layer_inputs = []
+        for v in valid:
+            for m in [v] + [v[:n] for n in range(len(v))] + [v + b"\x00", v[:1] + b"\xff" + v[2:]]:
+                if m not in layer_inputs:
+                    layer_inputs.append(m)
+    rq = prog.get("request") or bytes([0x22, 0xF1, 0x90])
+    svc = next((s_ for s_ in L.layer.services if s_.short_name == "svc_" + prog["pid"]), None)
+    for pdu in layer_inputs:
+        case = {"program": prog_case(prog), "values": None, "pdu": pdu.hex()}
+        apis: List[Tuple[str, Any, Tuple[Any, ...]]] = [("layer-decode", L.layer.decode, (pdu,))]
+        if prog.get("kind", "REQUEST") != "REQUEST":
+            apis.append(("layer-decode_response", L.layer.decode_response, (pdu, rq)))
+        if svc is not None:
+            apis.append(("service-decode_message", svc.decode_message, (pdu,)))
+        for name, fn, args in apis:
+            res, exc = guarded_decode(fn, *args)
+            part.count("layer_api_calls")
+            if name.startswith("layer-") and exc is not None and not isinstance(exc, DecodeError) and len(L.progs) > 1:
+                # the layer holds the services of all programs of the unit: attribute the failure to the service(s) that
+                # raise it on their own, so that the recorded case replays on a layer of its own
+                culprits = 0
+                for s2 in L.layer.services:
+                    p2 = L.progs.get(s2.short_name[4:])
+                    if p2 is None or p2 is prog:
+                        continue
+                    _, e2 = guarded_decode(s2.decode_message, pdu)
+                    if e2 is not None and type(e2) is type(exc):
+                        culprits += 1
+                        judge(part, f"{tagkey(p2)}/service-decode_message", {"program": prog_case(p2), "values": None, "pdu": pdu.hex()},
+                              pdu, None, e2, False, "service-decode_message")
+                if culprits:
+                    continue
+            judge(part, f"{tag}/{name}", case, pdu, "..." if exc is None else None, exc, False, name)
 
 
 unit_fn = make_unit_fn(PROPERTY, check_program)
@@ -235,7 +273,7 @@ def somersault_unit(unit: Tuple[str, int, int]) -> Part:
 
 
 def run(ctx: Ctx) -> None:
-    progs_c = [p for p in space.layer_c_programs(ctx.quick) if len(p["tags"][1].split("+")) <= (2 if ctx.quick else 3)]
+    progs_c = [p for p in space.layer_c_programs(ctx.quick) if len(p["tags"][1].split("+")) <= (2 if ctx.quick else 3) or p.get("kind", "REQUEST") != "REQUEST"]
     if not ctx.quick:
         for p in progs_c:
             p["maxlen"] = 4 if len(p["tags"][1].split("+")) <= 1 else 3
